@@ -33,7 +33,7 @@ CHECKS = {
          "states: up to 2 (quick) / 3 (thorough) entries over concrete section patterns, symbolic keys and value bytes; write/merge as users are covered by C07/C03 harnesses", "6/C10", None),
  "C11": ("model_checking", "One operation (set/get/getDef/list, symbolic arguments incl. bracketed/NULL/empty section, NULL/empty key, NULL object) from every valid pre-state matches the reference ordered map and re-establishes the representation invariant; histories of any length follow by induction over the invariant.",
          "the invariant (entries + owned section list + pre-initialised tail) is the trusted inductive hypothesis; universe of 4 sections x 3 keys", "6/C11", None),
- "C04": ("model_checking", "Every CBMC memory-safety/overflow obligation in the parser and the follow-up API calls is discharged for all byte strings within the bound (all 256 byte values, every delimiter class, comment set and option); not a proof beyond the bound.",
+ "C04": ("model_checking", "Every CBMC memory-safety/overflow obligation of the parser is discharged for all byte strings up to the length bound (byte strings enumerated by line structure, all other bytes symbolic incl. NUL; delimiter classes, comment sets, JOIN/PYTHON options), the parsed object satisfies the representation invariant I, and the getters, listings and merge are discharged with the same checks from arbitrary states satisfying I; not a proof beyond the bound.",
          "bounds: file length/lines per instance (see evidence); libc/stdio models in env/; capacity model of strdup/realloc; allocation failure out of scope", "6/C04", None),
  "C05": ("model_checking", "For each enumerated layout containing comment lines (with and without indentation, before/after/between entries and section headers, blocks) the parse result equals the expectation that ignores comment lines, for every comment text over all byte values except NL/NUL (further comment characters, delimiters, quotes, brackets) - decided symbolically.",
          "layouts concrete (fixed core + VERIF_SEED sample), <= 3-4 lines; in two of three instances the non-comment fields are representative literals", "5.1, 6/C05", None),
@@ -63,7 +63,7 @@ def main():
     m = {"version": 1,
          "setup_cmd": "./setup.sh",
          "hooks": {"guard": "LIBECONF_VERIF", "enable": "no source hooks: harness translation units #include the library .c files (static functions/state visible); nothing in /repo is guarded",
-                   "baseline_off_cmd": "cmake -G Ninja -B /repo/_build -S /repo >/dev/null && cmake --build /repo/_build >/dev/null && ctest --test-dir /repo/_build -j8 --timeout 900",
+                   "baseline_off_cmd": "cmake -G Ninja -B /repo/_build -S /repo >/dev/null && cmake --build /repo/_build >/dev/null && cmake --build /repo/_build --target check >/dev/null; ctest --test-dir /repo/_build -j8 --timeout 900",
                    "source_commits": [], "add_only": True},
          "engines": [{"name": "cbmc-harness", "path": "check", "serves_properties": [c["property_id"] for c in checks],
                       "kind_free_text": "CBMC 6.11 bounded model checking of harnesses that #include /repo/lib/*.c; runner in vlib/runner.py; environment models in env/"}],
